@@ -55,12 +55,18 @@ GenDrop == /\ "DropLevel" \in OpPool
                 /\ DropLevel(a, k) /\ InBounds'
                 /\ hist' = Append(hist, [op |-> "DropLevel", a |-> a, k |-> k])
 
+GenSetScale == /\ "SetScale" \in OpPool
+               /\ \E a \in Pick(Reg) : \E k \in Pick(0..2) :
+                    /\ SetScale(a, k, FALSE) /\ InBounds'
+                    /\ hist' = Append(hist, [op |-> "SetScale", a |-> a, k |-> k])
+
 GenReset == \E ks \in Pick(KeyKinds) : Reset(ks) /\ hist' = Append(hist, [op |-> "Reset", keys |-> ks])
 
 PrefixStep(st) ==
     /\ CASE st.op = "Reset" -> Reset(st.keys)
          [] st.op = "Load"  -> Load(st.o, [i \in Slot |-> st.v[i]], st.fb, st.ls, st.lvl)
          [] st.op = "DropLevel" -> DropLevel(st.a, st.k)
+         [] st.op = "SetScale" -> SetScale(st.a, st.k, FALSE)
          [] OTHER -> \E d \in 1..2 : Call(st, [deg |-> d, err |-> FALSE]) /\ d = CHOOSE x \in Res(st).degs : \A y \in Res(st).degs : x <= y
     /\ hist' = Append(hist, st)
 
@@ -73,7 +79,7 @@ GenNext ==
             /\ Load(Len(hist), [i \in Slot |-> x.v[i]], x.fb, LDelta, l) /\ InBounds'
             /\ hist' = Append(hist, [op |-> "Load", o |-> Len(hist), v |-> x.v, fb |-> x.fb, ls |-> LDelta, lvl |-> l])
     \/ /\ Len(hist) >= (IF Prefix = <<>> THEN NR + 1 ELSE Len(Prefix)) /\ Len(hist) < Depth
-       /\ (GenCall \/ GenCall \/ GenCall \/ GenLoad \/ GenDrop)
+       /\ (GenCall \/ GenCall \/ GenCall \/ GenLoad \/ GenDrop \/ GenSetScale)
     \/ /\ Randomize /\ UNCHANGED gvars
 
 GenInit == Init /\ hist = <<>>
